@@ -1,4 +1,5 @@
 import BoltonsVerif.C09.Proofs
+import BoltonsVerif.Generated.C09_SepKinds
 /-
 C09 — property theorems for the chunking / windowing / splitting / stripping / grouping helpers of
 `boltons.iterutils` (model: `Model.lean`; nothing here but statements, their short derivations from
@@ -73,6 +74,31 @@ theorem chunked_invalid (size : Int) (fill : Option α) (src : List α) :
 example : chunked 3 none none [0, 1, 2, 3, 4, 5, 6] = .ok [[0, 1, 2], [3, 4, 5], [6]] := by rfl
 example : chunked 3 none (some 9) [0, 1, 2, 3] = .ok [[0, 1, 2], [3, 9, 9]] := by rfl
 example : chunked 3 (some 1) none [0, 1, 2, 3] = .ok [[0, 1, 2]] := by rfl
+
+/-! ### round 3: the type of the chunks -/
+
+/-- SOURCE FACTS, re-established on every run: for an input of every kind the harness knows (list, tuple,
+    iterators, str, bytes, bytearray, deque, range, dict, memoryview, array, bare iterables) the chunks the
+    current `chunked_iter` yields str chunks for a str and bytes chunks for a bytes (what "concatenating the
+    chunks gives back the input" needs), and chunks every other kind of input without raising (today: into
+    lists, `chunkKind .other = .list`; the statement does not fix that type and the check does not compare it) -/
+theorem chunk_kind_table_agrees :
+    Generated.chunkTypeTable.all (fun r =>
+      if r.1 == "str" || r.1 == "bytes" then r.2 == (chunkKind (SrcKind.ofName r.1)).name
+      else r.2 != "raises") = true ∧
+    Generated.chunkTypeTable.any (fun r => r.1 == "str") = true ∧
+    Generated.chunkTypeTable.any (fun r => r.1 == "bytes") = true ∧
+    Generated.chunkTypeTable.any (fun r => r.1 == "bytearray") = true := by decide
+
+/-- the chunk type depends on the input kind only, and the chunks themselves do not depend on it: `chunked` on
+    a str / bytes is `chunked` on its item list, re-joined chunk by chunk -/
+theorem chunkedK_eq (k : SrcKind) (size : Param) (count : Option Param) (fill : Option α) (src : List α) :
+    chunkedK k size count fill src = (chunkedP size count fill src).map (fun l => (chunkKind k, l)) ∧
+    (chunkKind k = .list ↔ k = .other) := by
+  refine ⟨rfl, ?_⟩
+  cases k <;> simp [chunkKind]
+
+example : chunkedK (α := Nat) .str (.int 2) none none [1, 2, 3] = .ok (.str, [[1, 2], [3]]) := by rfl
 
 /-! ## windowed / pairwise -/
 
@@ -269,6 +295,68 @@ theorem split_text_sep (eqv : α → α → Bool) (isNone : α → Bool) (cs : L
     | _ :: _ :: _, _ => rfl
   simp only [Sep.isNone, pySplit, Bool.false_eq_true, ↓reduceIte, hf]
   exact pySplitSep_free _ _ _ (fun _ _ => rfl)
+
+/-! ### round 3: which Python OBJECT takes which branch (`callable`, `is_scalar`, `is_collection`) -/
+
+/-- one row of the regenerated table agrees with the facts the model's dispatch uses for that kind -/
+def sepRowOk (r : String × Bool × Bool × Bool × Bool) : Bool :=
+  match SepKind.ofName? r.1 with
+  | some k => r.2.1 == k.facts.callable && r.2.2.1 == k.facts.iterable && r.2.2.2.1 == isScalar k.facts
+      && r.2.2.2.2 == isCollection k.facts
+  | none => false
+
+/-- SOURCE FACTS, re-established from the current `boltons/iterutils.py` on every run (the table is
+    regenerated by evaluating `is_iterable` / `is_scalar` / `is_collection` of the source under test on a
+    sample object of every kind): the source answers exactly what the model's dispatch assumes, for every kind
+    of the model; and `None` and plain item values are scalars that are not iterable. -/
+theorem sep_kind_table_agrees :
+    Generated.sepKindTable.all sepRowOk = true ∧
+    SepKind.all.all (fun k => Generated.sepKindTable.any (fun r => SepKind.ofName? r.1 == some k)) = true ∧
+    Generated.plainTable.all (fun r => r.2 == (false, false, true, false)) = true := by decide
+
+/-- `SepKind.all` really lists every kind -/
+theorem sepKind_all_complete (k : SepKind) : k ∈ SepKind.all := by cases k <;> decide
+
+/-- `is_collection` is the negation of `is_scalar` on everything iterable or not -/
+theorem isCollection_eq_not_isScalar (f : ObjFacts) : isCollection f = !isScalar f := by
+  cases f with | mk c i s => cases i <;> cases s <;> rfl
+
+/-- EVERY iterable that is not a `str` / `bytes` - list, tuple, set, frozenset, dict, deque, range, bytearray,
+    memoryview, generator, one-shot iterator - is a collection of separators (`frozenset(sep)`) -/
+theorem sep_object_dispatch (k : SepKind) (vs : List α) (hk : k ≠ .str ∧ k ≠ .bytes) :
+    (SepObj.holding k vs).dispatch = .coll vs := by
+  cases k <;> first | rfl | exact absurd rfl hk.1 | exact absurd rfl hk.2
+
+/-- the other objects: `None` groups, an item value and a `str` are compared with `==`, a callable is used as
+    it is, a `bytes` object equals no item -/
+theorem sep_object_dispatch_scalars (v : α) (cs : List α) (f : α → Bool) :
+    (SepObj.none : SepObj α).dispatch = .none ∧ (SepObj.item v).dispatch = .value v ∧
+    (SepObj.func f).dispatch = .func f ∧ (SepObj.holding .str cs).dispatch = .text cs ∧
+    (SepObj.holding .bytes cs).dispatch = .opaque :=
+  ⟨rfl, rfl, rfl, rfl, rfl⟩
+
+/-- `split` called with a collection object cuts exactly at the members (item-wise `str.split` with the
+    membership test), whatever the container, for every `maxsplit` -/
+theorem splitO_collection (eqv : α → α → Bool) (isNone : α → Bool) (k : SepKind) (vs : List α)
+    (hk : k ≠ .str ∧ k ≠ .bytes) (maxsplit : Option Param) (src : List α) :
+    splitO eqv isNone (.holding k vs) maxsplit src =
+      pySplitSep (fun x => vs.any (fun v => eqv x v)) ((maxsplit.map Param.toInt).map Int.toNat) src := by
+  unfold splitO
+  rw [sep_object_dispatch k vs hk, splitS_eq_pySplit]
+  rfl
+
+/-- a `bytes` object as separator of an item sequence splits nothing -/
+theorem splitO_bytes (eqv : α → α → Bool) (isNone : α → Bool) (bs : List α) (maxsplit : Option Param)
+    (src : List α) : splitO eqv isNone (.holding .bytes bs) maxsplit src = [src] := by
+  unfold splitO
+  rw [splitS_eq_pySplit]
+  exact pySplitSep_free _ _ _ (fun _ _ => rfl)
+
+example : (SepKind.bytearray ≠ .str ∧ SepKind.bytearray ≠ .bytes) ∧
+    splitO (fun x y => x == y) (fun x => x == 0) (.holding .bytearray [61, 59]) none [1, 61, 2, 59, 3] =
+      [[1], [2], [3]] := by decide
+example : splitO (fun x y => x == y) (fun x => x == 0) (.holding .bytes [61]) none [1, 61, 2] = [[1, 61, 2]] := by
+  decide
 
 example : splitS (fun x y => x == y) (fun x => x == 0) (.text [1, 2]) none [1, 2, 1, 2] = [[1, 2, 1, 2]] := by decide
 example : splitS (fun x y => x == y) (fun x => x == 0) (.coll [1, 2]) (some (.halves 3)) [1, 3, 2, 4, 1] =
@@ -507,6 +595,36 @@ theorem chunk_ranges_unique (size cs off ov : Nat) (hov : ov < cs) (out : List (
     { ne := hne, head := hhead, chain := hchain, full := hfull, last := hlast, lastlen := hlastlen }
     (by omega)
   simpa [chunkRangesNat] using h
+
+/-- round 3: with `align=True` too the laws determine the output, once "on aligned boundaries" is spelled out:
+    the first range is cut at the first boundary (it ends at most `chunk_size - offset % step` after the offset),
+    every later range starts on a multiple of the step, the second one on the FIRST multiple after the offset;
+    all ranges but the first and the last are full and end before the stop.  ANY such list IS what
+    `chunk_ranges(..., align=True)` yields. -/
+theorem chunk_ranges_unique_aligned (size cs off ov : Nat) (hov : ov < cs) (out : List (Nat × Nat))
+    (hne : out ≠ [])
+    (hhead : out.head?.map (·.1) = some off)
+    (hchain : ∀ ab ∈ out.zip out.tail, ab.2.1 + ov = ab.1.2)
+    (haligned : ∀ r ∈ out.tail, r.1 % (cs - ov) = 0)
+    (hsecond : ∀ r, out.tail.head? = some r → off < r.1 ∧ r.1 ≤ off + (cs - ov))
+    (hfirst : ∀ r, out.head? = some r → r.2 ≤ off + (cs - off % (cs - ov)) ∧ (out.tail ≠ [] → r.2 < off + size))
+    (hfull : ∀ r ∈ out.tail.dropLast, r.2 = r.1 + cs ∧ r.2 < off + size)
+    (hlast : out.getLast?.map (·.2) = some (off + size))
+    (hlastlen : ∀ r, out.getLast? = some r → r.1 < r.2 ∧ r.2 ≤ r.1 + cs) :
+    out = chunkRangesNat size cs off ov true :=
+  chunkRangesNat_unique_aligned size cs off ov hov out hne hhead hchain haligned hsecond hfirst hfull hlast hlastlen
+
+/-- non-vacuity: the docstring example meets every hypothesis -/
+example : [(3, 5), (4, 9), (8, 13), (12, 17), (16, 18)] = chunkRangesNat 15 5 3 1 true :=
+  chunk_ranges_unique_aligned 15 5 3 1 (by decide) _ (by decide) (by decide) (by decide) (by decide)
+    (by simp) (by simp) (by decide) (by decide) (by simp)
+
+/-! ## default values (round 3) -/
+
+/-- SOURCE FACTS, re-established on every run from the live signatures: every default value the model assumes
+    for an argument left out is the default of the current source (more optional parameters may exist) -/
+theorem defaults_table_agrees :
+    modelDefaults.all (fun d => Generated.defaultsTable.contains d) = true := by decide
 
 /-! ## numeric arguments as passed: `int(value)`, `_validate_positive_int` -/
 
